@@ -113,6 +113,14 @@ func genTxs(t *rapid.T) []Tx {
 		} else {
 			k := rapid.IntRange(1, 3).Draw(t, "nout")
 			tx := Tx{From: from, Asset: asset, Amt: amt}
+			if rapid.IntRange(0, 7).Draw(t, "wrap") == 0 {
+				// outputs that only add up to the input modulo 2^64 (each may or may not fit int64)
+				r1 := rapid.Uint64Range(1<<61, math.MaxUint64).Draw(t, "wrapA")
+				r2 := rapid.Uint64Range(1<<61, math.MaxUint64).Draw(t, "wrapB")
+				tx.Outs = []Xfer{{To: NewActor(10, false).FA(), Amt: r1}, {To: NewActor(11, false).FA(), Amt: r2}, {To: NewActor(12, false).FA(), Amt: amt - r1 - r2}}
+				txs = append(txs, tx)
+				continue
+			}
 			for j, part := range splitAmount(t, amt, k) {
 				tx.Outs = append(tx.Outs, Xfer{To: NewActor(10+j, false).FA(), Amt: part})
 			}
@@ -430,6 +438,7 @@ func FuzzC20Batch(f *testing.F) {
 	f.Add(BatchJSON([]Tx{{From: a, Asset: "PEG", Amt: 5, Outs: []Xfer{{To: b, Amt: 5}}}}))
 	f.Add(BatchJSON([]Tx{{From: a, Asset: "pUSD", Amt: 9223372036854775807, Conv: "PEG"}}))
 	f.Add(BatchJSON([]Tx{{From: a, Asset: "pFCT", Amt: 7, Outs: []Xfer{{To: b, Amt: 3}, {To: a, Amt: 4}}}, {From: a, Asset: "PEG", Amt: 1, Conv: "pXBT"}}))
+	f.Add(BatchJSON([]Tx{{From: a, Asset: "PEG", Amt: 50, Outs: []Xfer{{To: b, Amt: 1 << 63}, {To: a, Amt: 1 << 63}, {To: b, Amt: 50}}}})) // sums to the input modulo 2^64
 	f.Add([]byte(`{"version":1,"version":1,"transactions":[]}`))
 	f.Add([]byte(`{"version":1,"transactions":[{"input":{"address":"` + a + `","amount":18446744073709551615,"type":"pUSD"},"conversion":"PEG"}]}`))
 	f.Fuzz(func(t *testing.T, data []byte) {
